@@ -3,6 +3,7 @@
 package props
 
 import (
+	"unicode/utf8"
 	"fmt"
 	"regexp"
 	"sort"
@@ -46,16 +47,11 @@ func (g *gq) app(o gq)           { g.T = append(g.T, o.T...) }
 func (g *gq) str(r *vk.RNG, v string) { g.T = append(g.T, tok{s: renderString(r, v), kind: tkStr}) }
 
 func renderString(r *vk.RNG, v string) string {
-	if !strings.ContainsAny(v, "`\n\r") && r.Chance(1, 3) {
-		ok := true
-		for i := 0; i < len(v); i++ {
-			if v[i] < 0x20 || v[i] >= 0x7f {
-				ok = false
-			}
-		}
-		if ok {
-			return "`" + v + "`"
-		}
+	// a back-quoted literal denotes its bytes as they stand: line feeds, carriage returns, tabs and
+	// multi-byte runes included (only a back quote cannot be written this way; NUL and invalid UTF-8
+	// are refused by the scanner)
+	if !strings.ContainsAny(v, "`\x00") && utf8.ValidString(v) && r.Chance(1, 3) {
+		return "`" + v + "`"
 	}
 	return quoteLogQL(v)
 }
@@ -109,7 +105,7 @@ var (
 	c05Labels     = []string{"a", "b", "job", "app", "level", "status", "x_y", "_u", "k9", "Ab",
 		"Offset", "By", "JSON", "On", "Or", "Keep", "Unwrap", "Bool", "Without"} // keywords are case-sensitive: these are plain identifiers
 	c05FuncLabels = []string{"rate", "sum", "duration", "ip", "bytes", "count", "vector"} // function-named labels, used where the next token is an operator, "," or ")"
-	c05StrVals    = []string{"", "x", "hello world", "with \"quote\"", "back\\slash", "tab\there", "new\nline", "ünï", "{}()[]", "a|b", "#not comment", "`", "\x01", "%d", "'single'"}
+	c05StrVals    = []string{"", "x", "hello world", "with \"quote\"", "back\\slash", "tab\there", "new\nline", "ünï", "{}()[]", "a|b", "#not comment", "`", "\x01", "%d", "'single'", "cr\rlf\r\nend", "\r"}
 	c05Regexes    = []string{"a.*", "(x|y)+", "[0-9]{3}", "^GET$", "\\d+\\.\\d+", "", ".*", "(?i)err", "a\\\\b", "\"q\"", "[[:alpha:]]+"}
 	c05Durs       = map[string]time.Duration{"5s": 5 * time.Second, "1m": time.Minute, "2h": 2 * time.Hour, "100ms": 100 * time.Millisecond, "1d": 24 * time.Hour, "1w": 7 * 24 * time.Hour,
 		"1h30m": 90 * time.Minute, "10ns": 10, "5us": 5 * time.Microsecond, "7µs": 7 * time.Microsecond, "1m30s": 90 * time.Second, "1w2d": 9 * 24 * time.Hour, "90m": 90 * time.Minute, "0s": 0, "1h1m1s": time.Hour + time.Minute + time.Second, "250ms": 250 * time.Millisecond}
